@@ -280,7 +280,7 @@ func tokCases(d *lib.Driver, full bool, r *lib.Rng) error {
 			return err
 		}
 	}
-	// known finding C17-empty-first-read-bom, on every seed
+	// finding C17-empty-first-read-bom (fixed, c109a1a): the chunking stays as a regression case
 	if err := one(true, false, [][]byte{{}, []byte("\xef\xbb\xbf[1]")}); err != nil {
 		return err
 	}
